@@ -115,7 +115,11 @@ var fibNames = []string{"/f", "/f/a", "/f/a/b", "/f2"}
 var stratNames = []string{"/", "/r", "/r/a", "/f", "/s/x"}
 var stratVals = []string{"/localhost/nfd/strategy/best-route", "/localhost/nfd/strategy/multicast/v=1", "/localhost/nfd/strategy/best-route/v=1",
 	"/localhost/nfd/strategy", "/localhost/nfd/strategy/nosuch", "/localhost/nfd/strategy/multicast/v=9", "/example/strategy/best-route", "/localhost/nfd/strategy/best-route/x",
-	"/localhost/nfd/strategy/multicast/v=1/extra", "/localhost/nfd/strategy/best-route/v=1/v=1"}
+	"/localhost/nfd/strategy/multicast/v=1/extra", "/localhost/nfd/strategy/best-route/v=1/v=1",
+	// version 1 as a two- and a four-byte number: the same version (a NonNegativeInteger has no shortest-form rule)
+	"/localhost/nfd/strategy/multicast/54=%00%01", "/localhost/nfd/strategy/best-route/54=%00%00%00%01",
+	// ... and a version that is no number at all
+	"/localhost/nfd/strategy/multicast/54=%00%00%01"}
 
 func (Engine) Generate(prop string, r *kit.Rand, tier string) *kit.Scenario[Config, Op] {
 	sc := &kit.Scenario[Config, Op]{}
@@ -1084,9 +1088,9 @@ func (r *runner) run() {
 
 func isStrategyOK(s string) (string, bool) {
 	switch s {
-	case "/localhost/nfd/strategy/best-route", "/localhost/nfd/strategy/best-route/v=1":
+	case "/localhost/nfd/strategy/best-route", "/localhost/nfd/strategy/best-route/v=1", "/localhost/nfd/strategy/best-route/54=%00%00%00%01":
 		return "/localhost/nfd/strategy/best-route/v=1", true
-	case "/localhost/nfd/strategy/multicast", "/localhost/nfd/strategy/multicast/v=1":
+	case "/localhost/nfd/strategy/multicast", "/localhost/nfd/strategy/multicast/v=1", "/localhost/nfd/strategy/multicast/54=%00%01":
 		return "/localhost/nfd/strategy/multicast/v=1", true
 	}
 	return "", false
